@@ -2,6 +2,7 @@
 
   .venv/bin/python -m harness._C09_findings dump OUT.json [slice|exec]     (PYTHONPATH selects the source tree)
   .venv/bin/python -m harness._C09_findings derive ORIG.json FIXED.json NOT1.json NOT2.json NOT3.json NOT4.json
+  .venv/bin/python -m harness._C09_findings selfcheck ORIG_SLICE.json ORIG_EXEC.json
 
 ``dump`` enumerates the whole thorough domain concretely (no solver) and records the failing selector
 tuples of the completeness oracle.  ``derive`` attributes every failure of the unchanged tree to the
@@ -111,6 +112,9 @@ def predicate(tuples, avals):
 
 
 def derive(paths):
+    """paths: ORIG FIXED NOT1..NOT4 (slice dumps).  Prints per-defect predicates and writes harness/_C09_known.py."""
+    import os
+
     sets = []
     for p in paths:
         rows = json.load(open(p))
@@ -122,17 +126,66 @@ def derive(paths):
     print("failing on the unchanged tree:", len(orig), " on the fully repaired tree:", len(fixed))
     attributed = set()
     avals = list(A_SLICE)
+    tables = {}
     for i, n in enumerate(nots, start=1):
         d = orig & n
+        tables[i] = d
         attributed |= d
         print(f"--- D{i}: {len(d)} tuples need this repair")
         for part in predicate(d, avals):
-            print("   ", part)
+            print("   ", part[:400])
     print("not attributed to a single necessary repair:", sorted(orig - attributed)[:10], len(orig - attributed))
+    out = os.path.join(os.path.dirname(os.path.abspath(__file__)), "_C09_known.py")
+    with open(out, "w") as fh:
+        fh.write('"""Generated by `python -m harness._C09_findings derive` (do not edit): the selector tuples (f, a, b, c) of the\n'
+                 'thorough domain on which the completeness oracle of C09 fails on the unchanged tree, by the defect whose repair\n'
+                 'is necessary for them (D1 subscript stores are no definitions on 3.12, D2 names of attribute/subscript bases and\n'
+                 'keys are not followed, D3 loop-carried control dependence inside one basic block, D4 control dependence inside\n'
+                 'control-dependence cycles).  Used by the predicates of known_findings.d/C09.jsonl."""\n')
+        for i in sorted(tables):
+            fh.write(f"KF_D{i} = frozenset({sorted(tables[i])!r})\n")
+    print("wrote", out)
+
+
+def selfcheck(orig_slice, orig_exec):
+    """Every predicate of known_findings.d/C09.jsonl, evaluated over the whole domain, must cover exactly the failing
+    tuples of the dumps (union over the defects), for both obligations."""
+    import os
+
+    from harness import C09
+
+    root = os.path.dirname(os.path.dirname(os.path.abspath(__file__)))
+    recs = [json.loads(l) for l in open(os.path.join(root, "known_findings.d", "C09.jsonl")) if l.strip()]
+    env = vars(C09)
+    nf = C09.NF
+    fail_slice = {tuple(r[:4]) for r in json.load(open(orig_slice))}
+    got = set()
+    preds = [r["predicate"] for r in recs if r["obligation"] == "complete"]
+    for f in range(nf):
+        for a in A_SLICE:
+            for b in A_SLICE:
+                for c in range(KMAX):
+                    if any(eval(p, env, {"f": f, "a": a, "b": b, "c": c, "mask": 4}) for p in preds):  # noqa: S307
+                        got.add((f, a, b, c))
+    print("complete: predicate set", len(got), "failing set", len(fail_slice), "equal:", got == fail_slice,
+          sorted(got ^ fail_slice)[:5])
+    fail_exec = {tuple(r[:5]) for r in json.load(open(orig_exec))}
+    got = set()
+    preds = [r["predicate"] for r in recs if r["obligation"] == "exec"]
+    for f in range(nf):
+        for a in A_EXEC:
+            for b in A_EXEC:
+                for shape in (0, 1):
+                    for akind in range(4):
+                        if any(eval(p, env, {"f": f, "a": a, "b": b, "shape": shape, "akind": akind}) for p in preds):  # noqa: S307
+                            got.add((f, a, b, shape, akind))
+    print("exec: predicate set", len(got), "failing set", len(fail_exec), "equal:", got == fail_exec, sorted(got ^ fail_exec)[:5])
 
 
 if __name__ == "__main__":
     if sys.argv[1] == "dump":
         dump(sys.argv[2], sys.argv[3] if len(sys.argv) > 3 else "slice")
+    elif sys.argv[1] == "selfcheck":
+        selfcheck(sys.argv[2], sys.argv[3])
     else:
         derive(sys.argv[2:])
